@@ -282,7 +282,7 @@ func (g *gen) direct(n int) {
 			if g.rnd.Intn(6) == 0 {
 				key = strings.Repeat("k", int(g.rnd.Range(4000, 4200)))
 			}
-			vals := g.urls(k, g.rnd.Pick(1, 3, 3, 3, 3, 3, 1))
+			vals := g.urls(k, g.rnd.Pick(1, 3, 3, 3, 3, 3, 1, 4))
 			if g.rnd.Intn(5) == 0 {
 				vals = append(vals, "with,comma")
 			}
@@ -359,6 +359,8 @@ func (g *gen) handWritten() {
 		mk("no-layers", ref, 0, config),
 		mk("one-layer", ref, 1, config, layer(dg('a'))),
 		mk("A-B-A", ref, 10485760, config, layer(dg('a'), "https://a1/"), layer(dg('b'), "https://b/1", "https://b/2"), layer(dg('a'), "https://a1/")),
+		mk("base-empty-empty-c-d-top", ref, 7, config, layer(dg('5')), layer(dg('0')), layer(dg('0')),
+			layer(dg('6'), "https://c.example.com/blob-c", "https://c2.example.com/blob-c"), layer(dg('7'), "https://d.example.com/blob-d"), layer(dg('8'))),
 		mk("A-A-A", ref, -1, config, layer(dg('a')), layer(dg('a')), layer(dg('a'))),
 		mk("70-sha256", ref, 5, many...),
 		mk("200-sha512", ref, 5, many512...),
@@ -366,6 +368,14 @@ func (g *gen) handWritten() {
 		mk("bad-ref", "/nohost", 5, config, layer(dg('a')), layer(dg('b'))),
 		mk("bad-layer-digest", ref, 5, config, layer(dg('a')), layer("sha256:xyz"), layer(dg('b'))),
 		idx,
+	}
+	// URL lists whose length WITHOUT separators still fits but WITH separators does not (60 equal URLs)
+	for _, ul := range []int{64, 65, 66, 67, 68, 70, 80} {
+		var us []string
+		for i := 0; i < 60; i++ {
+			us = append(us, fmt.Sprintf("https://m%02d.example.com/", i)+strings.Repeat("w", ul-24))
+		}
+		scen = append(scen, mk(fmt.Sprintf("60-urls-of-%d", ul), ref, 5, config, layer(dg('a'), us...), layer(dg('b')), layer(dg('d'), us[:30]...)))
 	}
 	for _, m := range scen {
 		for _, f := range g.flavours() {
@@ -420,22 +430,6 @@ func (g *gen) hyp(n int) {
 		m.tag = "comma/" + m.tag
 		g.runManifest(m, g.flavours()[k%2], false)
 	}
-	// H2: a non-layer child between layers shifts the default writer's URL indices
-	g.hypSig = SigNonLayer
-	g.out.Comment("stream hyp " + SigNonLayer + ": non-layer child between layers (outside 'config first, then layers')")
-	att := ocispec.Descriptor{MediaType: images.MediaTypeInToto, Digest: digest.Digest(dg('e')), Size: 7}
-	h2 := mk("nonlayer-between", ref, 5, config, layer(dg('a'), "https://a/"), att, layer(dg('b'), "https://b/"), layer(dg('d'), "https://d/"))
-	for _, f := range g.flavours() {
-		g.runManifest(h2, f, false)
-	}
-	for k := 0; k < n; k++ {
-		m := g.manifest(2+g.rnd.Intn(6), 0, true, false, false)
-		pos := 2 + g.rnd.Intn(len(m.children)-2)
-		x := ocispec.Descriptor{MediaType: nonLayerTypes[2+g.rnd.Intn(3)], Digest: g.digest(), Size: 7}
-		m.children = append(m.children[:pos], append([]ocispec.Descriptor{x}, m.children[pos:]...)...)
-		m.tag = "nonlayer/" + m.tag
-		g.runManifest(m, g.flavours()[k%2], false)
-	}
 	// H3: equal digests with different URL lists (or a config sharing a layer's digest): the extra
 	// flavour looks URLs up by digest and takes the first child carrying it
 	g.hypSig = SigDupURLs
@@ -477,6 +471,30 @@ func (g *gen) hyp(n int) {
 	g.hypSig = ""
 }
 
+// outside: inputs OUTSIDE the property's domain, replayed for documentation only (the Lean file proves
+// nonlayer_between_layers_counterexample): a non-layer child between layers shifts the default writer's
+// urls.<i> indices against the layers label.  Every oracle verdict here is counted, never reported.
+func (g *gen) outside(n int) {
+	ref := "ghcr.io/stargz-containers/ubuntu:22.04-esgz"
+	// H2: a non-layer child between layers shifts the default writer's URL indices
+	g.noteOnly = true
+	g.out.Comment("stream outside: non-layer child between layers (outside the property's domain 'config first, then layers'); nothing in this stream can fail the check")
+	att := ocispec.Descriptor{MediaType: images.MediaTypeInToto, Digest: digest.Digest(dg('e')), Size: 7}
+	h2 := mk("nonlayer-between", ref, 5, config, layer(dg('a'), "https://a/"), att, layer(dg('b'), "https://b/"), layer(dg('d'), "https://d/"))
+	for _, f := range g.flavours() {
+		g.runManifest(h2, f, false)
+	}
+	for k := 0; k < n; k++ {
+		m := g.manifest(2+g.rnd.Intn(6), 0, true, false, false)
+		pos := 2 + g.rnd.Intn(len(m.children)-2)
+		x := ocispec.Descriptor{MediaType: nonLayerTypes[2+g.rnd.Intn(3)], Digest: g.digest(), Size: 7}
+		m.children = append(m.children[:pos], append([]ocispec.Descriptor{x}, m.children[pos:]...)...)
+		m.tag = "nonlayer/" + m.tag
+		g.runManifest(m, g.flavours()[k%2], false)
+	}
+	g.noteOnly = false
+}
+
 // Run is the body of TestVerifC20 / TestVerifC20CRI.
 func Run(impl Impl) {
 	out := verifutil.OpenOut()
@@ -500,6 +518,10 @@ func Run(impl Impl) {
 	}
 	if g.stream == "hyp" {
 		g.hyp(n)
+		return
+	}
+	if g.stream == "outside" {
+		g.outside(n)
 		return
 	}
 	g.handWritten()
